@@ -33,6 +33,13 @@ impl TxOut {
         };
 
         // Script Pub Key
+        let remaining = (cursor.get_ref().len() as u64).saturating_sub(cursor.position());
+        if script_pub_key_size > remaining {
+            return Err(BSVErrors::DeserialiseTxOut(
+                "script_pub_key".to_string(),
+                std::io::Error::new(std::io::ErrorKind::UnexpectedEof, "script length exceeds remaining bytes"),
+            ));
+        }
         let mut script_pub_key = vec![0; script_pub_key_size as usize];
         if let Err(e) = cursor.read(&mut script_pub_key) {
             return Err(BSVErrors::DeserialiseTxOut("script_pub_key".to_string(), e));
